@@ -324,9 +324,10 @@ def envJoin : List AVal → List AVal → List AVal
   | e1, [] => e1
   | a :: e1, b :: e2 => a.join b :: envJoin e1 e2
 
+/-- pointwise `⊑`, and the left environment binds no more variables than the right one -/
 def envLeB : List AVal → List AVal → Bool
   | [], _ => true
-  | a :: e1, [] => a.leB AVal.bot && envLeB e1 []
+  | _ :: _, [] => false
   | a :: e1, b :: e2 => a.leB b && envLeB e1 e2
 
 def AS.join (a b : AS) : AS := ⟨envJoin a.env b.env, a.leaked || b.leaked, a.s.join b.s⟩
